@@ -468,3 +468,17 @@ Fixpoint store_copy_all (s : store) (lfs : list nat) : option (store * list nat)
                | None => None end
   end.
 Definition factorset_product_store (s : store) (a b : list nat) : option (store * list nat) := store_copy_all s (a ++ b).
+
+(* FactorDict.dot(other) = sum((self[clique] * other[clique]).values.sum() for clique in self): per clique the
+   flat total of the product factor (set order of the product as a parameter), summed from 0 left to right *)
+Section FactorDictDot.
+Variable R : csr.
+Definition dot1 (f g : dfactor R) (order : list var) : res R :=
+  do h <- product R f g order; Ok (t_total R (dvals h)).
+Fixpoint fd_dot_go (acc : R) (ps : list (dfactor R * dfactor R * list var)) : res R :=
+  match ps with
+  | [] => Ok acc
+  | (f, g, o) :: r => do x <- dot1 f g o; fd_dot_go (add acc x) r
+  end.
+Definition factordict_dot (ps : list (dfactor R * dfactor R * list var)) : res R := fd_dot_go zero ps.
+End FactorDictDot.
